@@ -537,3 +537,41 @@ pub fn advance(rng: &mut Rng, t: &mut i64) {
         _ => *t += 3 * 3_600_000,
     }
 }
+
+impl Net {
+    /// exchanges the sys.Peer rows of all instances once (a throw-away room, two round-robin rounds),
+    /// so that later pulls insert nothing but room rows
+    pub async fn warmup(&self) {
+        let room = self.create_room(T0 - 40 * DAY, &["ns.Doc"]).await;
+        for _ in 0..2 {
+            for dst in 0..self.peers.len() {
+                for src in 0..self.peers.len() {
+                    if dst != src { self.pull(dst, src, room, T0 - 39 * DAY).await; }
+                }
+            }
+        }
+    }
+    /// (documents, tokens) totals of the full-text index (the FTS5 'averages' record)
+    pub async fn fts_totals(&self, p: usize) -> (i64, i64) {
+        self.sql(p, |c| {
+            let blk: Vec<u8> = c.query_row("SELECT block FROM _node_fts_data WHERE id=1", [], |r| r.get(0)).unwrap_or_default();
+            let mut vals = vec![];
+            let mut i = 0;
+            while i < blk.len() {
+                let mut v: i64 = 0;
+                let mut k = 0;
+                loop {
+                    let b = blk[i];
+                    i += 1;
+                    k += 1;
+                    if k == 9 { v = (v << 8) | b as i64; break; }
+                    v = (v << 7) | (b & 0x7f) as i64;
+                    if b & 0x80 == 0 || i >= blk.len() { break; }
+                }
+                vals.push(v);
+            }
+            (vals.first().cloned().unwrap_or(0), vals.get(1).cloned().unwrap_or(0))
+        })
+        .await
+    }
+}
